@@ -5,6 +5,7 @@ import (
 	"strconv"
 	"strings"
 	"testing"
+	"unicode"
 )
 
 func randStr(r *rand.Rand, alphabet string, max int) string {
@@ -72,6 +73,9 @@ func TestModelsAgainstStdlib(t *testing.T) {
 	const spaces = " \t\n\v\f\rx\xc2\x85\xa0\xe1\x9a\x80\xe2\x81\x9f\xa8\xaf\xe3\x8a\xf0\x9f"
 	for i := 0; i < 500000; i++ {
 		s := randStr(r, spaces, 7)
+		if StringsTrimRightSpace(s) != strings.TrimRightFunc(s, unicode.IsSpace) || StringsTrimLeftSpace(s) != strings.TrimLeftFunc(s, unicode.IsSpace) {
+			t.Fatalf("TrimRight/LeftFunc(%q)", s)
+		}
 		if StringsTrimSpace(s) != strings.TrimSpace(s) {
 			t.Fatalf("TrimSpace(%q): %q vs %q", s, StringsTrimSpace(s), strings.TrimSpace(s))
 		}
